@@ -1369,6 +1369,10 @@ class Data(BaseCartesianData):
         except ValueError:
             pass
 
+        if changed:
+            for link in self.derived_links:
+                link.replace_ids(old, new)
+
         if changed and self.hub is not None:
 
             # remove old component and broadcast the change
